@@ -1,15 +1,31 @@
 """C11 -- incremental model updates equal the batch model on the concatenated data.
 
-Three families of harnesses, all with every data value symbolic:
+Four families of harnesses:
 
-  gaussian   menpo.model.gmrf._increment_multivariate_gaussian_mean/_cov chained over every way of cutting
-             the sample sequence into an initial batch plus 1..k increments, against NumPy's documented
-             mean / covariance formulae of the stacked data (replay: against numpy.mean / numpy.cov themselves)
-  gmrf       GMRFVectorModel(incremental=True) + increment(...) end to end against the batch model built from
-             all the data at once (n_samples, mean_vector, per-edge covariances, precision matrix), for every
-             graph type, both edge modes, dense and block-sparse storage, both bias conventions
-  pca_counts PCAVectorModel / PCAModel .increment(...): sample count and mean against the batch model, for n
-             above and below d, centred and uncentred, with LAPACK (eigh, qr, svd) cut by contract stubs
+  gaussian    menpo.model.gmrf._increment_multivariate_gaussian_mean/_cov chained over every way of cutting the
+              sample sequence into an initial batch plus 1..k increments, against NumPy's documented mean /
+              covariance formulae of the stacked data (replay: against numpy.mean / numpy.cov themselves);
+              every data value symbolic
+  gmrf        GMRFVectorModel(incremental=True) + increment(...) end to end against the batch model built from
+  gmrf_model  all the data at once (n_samples, mean_vector, per-edge covariances, precision matrix), for every
+              graph type, both edge modes, dense and block-sparse storage, both bias conventions.  Two encodings
+              of the covariance inverse: inv="cof" (engine cofactor inverse, precision entries are explicit
+              rational functions; all data symbolic on the small graphs, initial batch concrete + increments
+              symbolic on the larger ones) and inv="uf" (uninterpreted function of the covariance; all data
+              symbolic on every graph)
+  pca_counts  PCAVectorModel / PCAModel .increment(...): sample count and mean against the batch model, for n
+  pca_model   above and below d, centred and uncentred, with LAPACK (eigh, qr, svd) cut by contract stubs
+  pca_degenerate  all samples identical (zero variance)
+
+Findings on the unchanged tree (genuine, confirmed by hand; reported as VIOLATIONs):
+  * obligations "...after_exactly_zero_mean": menpo.math.decomposition.ipca treats a mean that is EXACTLY zero as
+    "not centred" (`if m_a is not None and not np.all(m_a == 0)`), so a centred PCA model whose current mean is the
+    zero vector (symmetric or pre-centred data) is incremented without mean update and without centring: the mean
+    stays 0 instead of the batch mean (and the eigen-structure is that of uncentred data).
+  * obligation "zero_variance.increment_raises": when no eigenvalue survives ipca's ABSOLUTE threshold l > 1e-10
+    (identical samples; by hand also data with spread ~1e-6, where the batch model keeps all components because
+    pca() uses a RELATIVE threshold), PCAVectorModel.increment raises ValueError("Tried setting n_active_components
+    to 0 ...") instead of producing the batch model.
 """
 import itertools
 import random
@@ -24,32 +40,42 @@ META = {
     "compositions up to n = 10), returns termwise the mean and the covariance (both bias conventions) of the "
     "stacked data as defined by NumPy's documented formulae -- all data symbolic, so each obligation is a "
     "polynomial identity; hence the result cannot depend on the split. (gmrf) GMRFVectorModel(incremental=True) "
-    "followed by 1-3 increment() calls is compared field by field (n_samples, mean_vector, every per-edge / "
-    "per-vertex covariance, every entry of the precision matrix) with the batch model built from the stacked data, "
-    "incremental and non-incremental, for graphs without edges, single edge, chains, cycles, trees and directed "
-    "graphs, both edge modes, dense and scipy-BSR storage, both bias conventions; the precision entries are "
-    "rational functions (cofactor inverse of a symbolic covariance). (pca_counts) PCAVectorModel/PCAModel.increment: "
-    "n_samples and the mean equal those of the batch model for n above and below d, centred and uncentred, 1-2 "
-    "increments; the eigen-decomposition, QR and SVD are replaced by contract stubs returning arbitrary values "
-    "(ordered as LAPACK orders them), because the clause does not depend on them.",
+    "followed by 1-3 increment() calls (array and list-of-vectors forms) is compared field by field (n_samples, "
+    "mean_vector, every per-edge / per-vertex covariance, every entry of the precision matrix) after every increment "
+    "with the batch model built from the data seen so far, incremental and non-incremental, for graphs without "
+    "edges, single edge, chains, cycles, trees and directed graphs, both edge modes, dense and scipy-BSR storage, "
+    "both bias conventions. The covariance inverse is encoded twice: as the cofactor inverse (precision entries are "
+    "explicit rational functions of the data; all data symbolic on graphs with <= 3 vertices / 2x2 covariances, "
+    "concrete initial batch + symbolic increments beyond) and as an uninterpreted function of the covariance "
+    "(all data symbolic on every graph). (pca) PCAVectorModel/PCAModel.increment: n_samples and the mean equal "
+    "those of the batch model for n above and below d, centred and uncentred, 1-3 increments, data left untouched; "
+    "the eigen-decomposition, QR and SVD are replaced by contract stubs returning arbitrary values (ordered as "
+    "LAPACK orders them), because the clause does not depend on them; paths on which the model mean is exactly "
+    "zero, and zero-variance data, are explored separately (both are findings).",
     "bounds": ["gaussian: n <= 6 all compositions (quick n <= 5), thorough random compositions n = 7..10; d in {1,2,3}",
-               "gmrf: 2-4 vertices, 1-2 features per vertex, 3-5 initial samples, 1-3 increments of 1-2 samples",
-               "pca: n0 in {2,3,4}, d in {2,3}, increments of 1-2 samples, 1-2 increments",
+               "gmrf: 2-4 vertices, 1-2 features per vertex (1x1, 2x2 and one 4x4 covariance), 2-5 initial samples, 1-3 increments of 1-2 samples "
+               "(thorough: random splits of 7-9 samples with the uninterpreted inverse)",
+               "pca: n0 in {2,3,4}, d in {2,3}, increments of 1-2 samples, 1-3 increments",
                "data boxed to [-8,8]"],
     "stubs": ["scipy.sparse.bsr_matrix -> block-sum model (duplicates add, as scipy documents); replay uses real scipy",
               "numpy.cov / numpy.mean -> NumPy's documented formulae (engine model)",
-              "numpy.linalg.inv -> cofactor inverse (engine model), non-singularity recorded as a side condition",
-              "pca harness only: numpy.linalg.eigh / qr / svd -> arbitrary values of the right shapes, eigenvalues "
-              "ascending, singular values descending and non-negative"],
-    "assumptions": ["floats are modelled as exact reals", "covariance matrices that menpo inverts are non-singular "
-                    "(otherwise menpo raises / divides by zero in the batch model as well)"],
+              "numpy.linalg.inv -> cofactor inverse (engine model), non-singularity recorded as a side condition; "
+              "inv=uf instances: menpo's _covariance_matrix_inverse -> uninterpreted function of its argument",
+              "pca harnesses only: numpy.linalg.eigh / qr / svd -> arbitrary values of the right shapes, eigenvalues "
+              "ascending, non-negative, largest positive; singular values descending, non-negative, largest >= 0.01"],
+    "assumptions": ["floats are modelled as exact reals (PCA means: tolerance 1e-9, menpo weights them with the "
+                    "floats n_a/n, n_b/n)",
+                    "covariance matrices that menpo inverts are non-singular (otherwise menpo raises / divides by "
+                    "zero in the batch model as well)",
+                    "pca_counts / pca_model: the first two samples differ by >= 0.5 in their first coordinate "
+                    "(non-degenerate data; justifies the stub contracts), pca_degenerate covers identical samples"],
     "not_covered": ["equality of eigenvalues and principal subspace after ipca (QR of a symbolic residual followed by "
-                    "an SVD larger than 2x2: no model within reach)",
+                    "an SVD larger than 2x2: no model within reach); in particular ipca's absolute eigenvalue "
+                    "threshold versus pca's relative one on small-scale data",
                     "forgetting factor != 1 (the property is stated without forgetting)",
-                    "n_components (truncated-SVD inverse) in the GMRF", "float32 storage of the precision matrix",
-                    "GMRF with ONE feature per vertex in subtraction mode or on a graph without edges: menpo cannot "
-                    "build even the batch model there (numpy.cov returns a 0-d array that numpy.linalg.inv refuses)"],
-    "trusted": ["NumPy's documented mean/cov formulae as written in the harness", "BSR block-sum model"],
+                    "n_components (truncated-SVD inverse) in the GMRF", "float32 storage of the precision matrix"],
+    "trusted": ["NumPy's documented mean/cov formulae as written in the harness", "BSR block-sum model",
+                "canonical polynomial arithmetic of the engine (structural identity of fractions)"],
 }
 
 # ---------------------------------------------------------------------------------------------- instances
@@ -133,30 +159,55 @@ def instances(tier):
                 ps = _random_compositions(n, 2 - bias, 6, seed * 1000 + n * 10 + bias)
                 out.append(("gaussian", {"n": n, "d": 2, "bias": bias, "parts": ps}))
     # ---- GMRF end to end
-    #  concatenation: 1 feature per vertex (2x2 covariances); subtraction and edgeless graphs need 2 features
-    #  per vertex (with one, menpo cannot build even the batch model, see META.not_covered).
-    #  Two encodings of the covariance inverse: "cof" = the engine's cofactor inverse (precision entries are
-    #  explicit rational functions; all data symbolic where that stays small, otherwise the initial batch is
-    #  concrete and the increments symbolic), "uf" = uninterpreted function of the covariance, all data symbolic.
+    #  features per vertex k: concatenation 1 (2x2 covariances); subtraction and edgeless graphs 1 and 2 (1x1 and
+    #  2x2 covariances).  Two encodings of the covariance inverse: "cof" = the engine's cofactor inverse (precision
+    #  entries are explicit rational functions; all data symbolic where that stays small, otherwise the initial
+    #  batch is concrete and the increments symbolic), "uf" = uninterpreted function of the covariance, all data
+    #  symbolic.
     gq = ["isolated2", "edge", "chain3", "cycle3", "tree3"]
     gt = gq + ["isolated3", "chain3r", "tree3b", "dchain3", "dcycle3", "chain4", "cycle4", "tree4", "star4"]
     for g in (gq if quick else gt):
         edges, nv = GRAPHS[g][1], GRAPHS[g][2]
         edgeless = edges is None
         for mode in (("concatenation",) if edgeless else ("concatenation", "subtraction")):
-            k = 2 if (edgeless or mode == "subtraction") else 1
-            small = edgeless or len(edges) == 1 or (k == 1 and nv == 3)
+            for k in ((1, 2) if (edgeless or mode == "subtraction") else (1,)):
+                scalar = k == 1 and (edgeless or mode == "subtraction")  # 1x1 covariances
+                small = scalar or edgeless or len(edges) == 1 or (k == 1 and nv == 3)
+                n0 = 2 if scalar else 3
+                for sparse in (False, True):
+                    for bias in (0, 1):
+                        base = {"graph": g, "mode": mode, "sparse": sparse, "bias": bias, "k": k}
+                        if not (quick and bias == 1 and not sparse):
+                            out.append(("gmrf", dict(base, parts=[3, 1, 1] if quick else "some", inv="uf")))
+                        if quick and bias == 1 and sparse and not small:
+                            continue
+                        # (one instance per split: a forked choice would put an integer into the non-linear
+                        # side conditions "determinant != 0" and z3 then gives up on the path feasibility query)
+                        if quick:
+                            splits = [[n0, 1, 1]]
+                        elif small:
+                            splits = [[n0, 1, 1], [n0, 2], [n0 + 1, 1], [n0, 1, 2]]
+                        else:
+                            splits = [[3, 1] if g == "star4" and k == 2 else [3, 1, 1]]
+                        for parts in splits:
+                            cof = dict(base, parts=parts, inv="cof")
+                            if not small:
+                                cof["conc0"] = 3
+                            out.append(("gmrf", cof))
+    # single edge with two features per vertex in concatenation mode (4x4 covariance)
+    for sparse in ((True,) if quick else (False, True)):
+        out.append(("gmrf", {"graph": "edge", "mode": "concatenation", "sparse": sparse, "bias": 0, "k": 2,
+                             "parts": [5, 1, 1], "inv": "uf"}))
+        out.append(("gmrf", {"graph": "edge", "mode": "concatenation", "sparse": sparse, "bias": 0, "k": 2,
+                             "parts": [5, 1], "inv": "cof", "conc0": 5}))
+    if not quick:
+        # longer sample sequences, random splits (initial batch >= 3 samples)
+        for g, mode, k, n in (("chain3", "concatenation", 1, 8), ("cycle3", "subtraction", 2, 7),
+                              ("tree4", "concatenation", 1, 9), ("isolated3", "concatenation", 2, 8)):
             for sparse in (False, True):
-                for bias in (0, 1):
-                    base = {"graph": g, "mode": mode, "sparse": sparse, "bias": bias, "k": k}
-                    if not (quick and bias == 1 and not sparse):
-                        out.append(("gmrf", dict(base, parts=[3, 1, 1] if quick else "some", inv="uf")))
-                    if quick and bias == 1 and sparse and not small:
-                        continue
-                    cof = dict(base, parts=[3, 1, 1] if (quick or not small) else "some", inv="cof")
-                    if not small:
-                        cof["conc0"] = 3
-                    out.append(("gmrf", cof))
+                ps = _random_compositions(n, 3, 5, seed * 1000 + n * 10 + len(g))
+                out.append(("gmrf", {"graph": g, "mode": mode, "sparse": sparse, "bias": int(sparse), "k": k,
+                                     "parts": ps, "inv": "uf", "every_step": False}))
     # single edge with two features per vertex in concatenation mode (4x4 covariance)
     for sparse in ((True,) if quick else (False, True)):
         out.append(("gmrf", {"graph": "edge", "mode": "concatenation", "sparse": sparse, "bias": 0, "k": 2,
@@ -164,7 +215,8 @@ def instances(tier):
         out.append(("gmrf", {"graph": "edge", "mode": "concatenation", "sparse": sparse, "bias": 0, "k": 2,
                              "parts": [5, 1], "inv": "cof", "conc0": 5}))
     # Vectorizable-backed model (PointCloud samples)
-    out.append(("gmrf_model", {"graph": "edge", "mode": "concatenation", "sparse": True, "bias": 0, "parts": [5, 1, 1]}))
+    out.append(("gmrf_model", {"graph": "edge", "mode": "concatenation", "sparse": True, "bias": 0, "parts": [3, 1, 1]}))
+    out.append(("gmrf_model", {"graph": "chain3", "mode": "subtraction", "sparse": False, "bias": 1, "parts": [2, 2, 1]}))
     # ---- PCA sample count and mean
     for centre in (True, False):
         for (n0, d) in ((2, 3), (3, 2)) if quick else ((2, 3), (3, 2), (2, 2), (4, 2), (3, 3)):
@@ -394,9 +446,10 @@ def _install_inverse_uf(F, G):
 
     def inverse(cov_mat, n_components):
         c = core.ctx()
-        key = ("covinv", np.shape(cov_mat), _key(cov_mat), n_components)
+        cov_mat = np.atleast_2d(np.asarray(cov_mat, dtype=object))  # (a single feature gives a 0-d covariance)
+        key = ("covinv", cov_mat.shape, _key(cov_mat), n_components)
         if key not in c.memo:
-            a = np.empty(np.shape(cov_mat), dtype=object)
+            a = np.empty(cov_mat.shape, dtype=object)
             for i in np.ndindex(*a.shape):
                 a[i] = F.fresh("covinv")
             c.memo[key] = a
@@ -409,6 +462,8 @@ def _gmrf_parts(F, cfg):
     p = cfg["parts"]
     if p == "some":
         return F.choice("split", [[3, 1], [3, 2], [4, 1], [3, 1, 1], [3, 1, 2], [3, 2, 1], [3, 1, 1, 1]])
+    if p and isinstance(p[0], list):
+        return F.choice("split", p)
     return p
 
 
@@ -444,7 +499,7 @@ def gmrf(F, ob, cfg):
         else:
             inc.increment([row for row in B.copy()])  # list-of-vectors form
         at += B.shape[0]
-        if i == last or cfg.get("every_step", True):
+        if i == last or cfg.get("every_step", True):  # (the batch model after every increment, or only at the end)
             bat = G.GMRFVectorModel(X[:at].copy(), graph, incremental=True, **kw)
             _compare_gmrf(F, ob, "inc%d" % i, inc, bat, cfg["sparse"])
     # the plain (non-incremental) batch model agrees as well
@@ -456,7 +511,7 @@ def gmrf(F, ob, cfg):
 
 
 def gmrf_model(F, ob, cfg):
-    """GMRFModel on PointCloud samples (2 points in 1-D per vertex pair => via as_matrix)"""
+    """GMRFModel on PointCloud samples (data matrices built by as_matrix)"""
     import menpo.model.gmrf as G
     from menpo.shape import PointCloud
 
@@ -467,14 +522,9 @@ def gmrf_model(F, ob, cfg):
     parts = cfg["parts"]
     n, nv = sum(parts), graph.n_vertices
     X = F.reals("x", (n, nv))
-    if F.sym:
-        X = X.copy()
-        rs = np.random.RandomState(5)
-        X[:parts[0] - 2] = K.const(F, np.round(rs.uniform(-3, 3, (parts[0] - 2, nv)) * 4) / 4)
 
     def clouds(rows):
-        # every sample is a PointCloud of nv points in 2-D => 2 features per vertex... keep 1 feature per
-        # vertex: nv points in 1-D
+        # every sample is a PointCloud of nv points in 1-D: one feature per vertex
         return [PointCloud(np.array(r, dtype=X.dtype).reshape(nv, 1), copy=False) for r in rows]
 
     kw = dict(mode=cfg["mode"], sparse=cfg["sparse"], bias=cfg["bias"], dtype=np.float64)
